@@ -3120,15 +3120,24 @@ class _Simu(_IObserver, _params.Updatable, ABC):
 
         is1d = values.ndim == 1
 
+        # the leading axis of a 2d array identifies the storage when it matches only one of
+        # (Nn, Ne): sizes alone are ambiguous (e.g. (Ne, 3) strains with Ne * 3 divisible by Nn)
+        n0 = values.shape[0] if values.ndim >= 2 else -1
+        if (n0 == Nn) != (n0 == Ne):
+            onNodes, onElems = n0 == Nn, n0 == Ne
+        else:
+            onNodes = values.size % Nn == 0
+            onElems = values.size % Ne == 0
+
         if nodeValues:
             shape = -1 if is1d else (Nn, -1)
-            if values.size % Nn == 0:
+            if onNodes:
                 # values stored at nodes
                 if is1d:
                     return values.ravel()
                 else:
                     return values.reshape(Nn, -1)
-            elif values.size % Ne == 0:
+            elif onElems:
                 # values stored at elements
                 values_e = values.reshape(Ne, -1)
                 # get node values from element values
@@ -3136,9 +3145,9 @@ class _Simu(_IObserver, _params.Updatable, ABC):
                 return values_n.reshape(shape)
         else:
             shape = -1 if is1d else (Ne, -1)
-            if values.size % Ne == 0:
+            if onElems:
                 return values.reshape(shape)
-            elif values.size % Nn == 0:
+            elif onNodes:
                 # get values stored at nodes (Nn, i)
                 values_n = values.reshape(Nn, -1)
                 # average over each element's nodes, group by group (element
